@@ -87,7 +87,7 @@ def spell_value(r, v, style):
         return '%%position(l0, %s)' % ('(%d)' % v)
     if style == 'const':
         return 'VALK'
-    if style == 'char' and 33 <= v <= 126 and v not in (39, 92, 35):
+    if style == 'char' and 33 <= v <= 126 and chr(v) not in "'\\#,()":      # (the lexer's own treatment of , ( ) # inside quotes is C11's business, not C10's)
         return "'%s'" % chr(v)
     if style == 'arith':
         return '%d + %d' % (v - 7, 7) if r.random() < 0.5 else '(%d) * 1' % v
